@@ -16,7 +16,7 @@ from lxml.builder import E
 from .hashlist import *
 from .__version__ import ascmhl_supported_hashformats
 from .hashlist import MHLHashList
-from .utils import convert_local_path_to_posix, convert_posix_to_local_path
+from .utils import convert_local_path_to_posix, convert_posix_to_local_path, NamelessByteStream
 
 
 def parse(file_path):
@@ -31,7 +31,7 @@ def parse(file_path):
         return chain
 
     file = open(file_path, "rb")
-    for event, element in etree.iterparse(file, events=("start", "end")):
+    for event, element in etree.iterparse(NamelessByteStream(file), events=("start", "end")):
         # check if we need to create a new container
         if event == "start":
             # the tag might contain the namespace like {urn:ASC:MHL:v2.0}hash, so we need to strip the namespace part
